@@ -241,4 +241,36 @@ def duplexSeq (o : Duplex) : List (List Nat × Option Nat × Option Nat) → Lis
     let (o', res) := duplex o m bl ol
     res :: duplexSeq o' rest
 
+/-! ### one object, a history of `duplex()` and one-shot calls (the code after `fix: Keccak.duplex() selects the
+    native bit order for its own call only`) -/
+
+/-- `Keccak.duplex(m,bitlen,outlen)` on the object: `duplexing,self.duplexing = self.duplexing,True` … `finally:
+    self.duplexing = duplexing` — the flag is the caller's again when the call returns or raises; `_S` and the result
+    are those of `duplex`. -/
+def duplexObj (o : Duplex) (m : List Nat) (bitlen : Option Nat) (outlen : Option Nat) : Duplex × Except Err (List Nat) :=
+  let saved := o.cfg.duplexing
+  let (o', res) := duplex o m bitlen outlen
+  ({ o' with cfg := { o'.cfg with duplexing := saved } }, res)
+
+/-- the public operations of a Keccak / SHA3 object that meet in one history -/
+inductive SeqStep where
+  | duplex (m : List Nat) (bitlen : Option Nat) (outlen : Option Nat)
+  | call (M : List Nat) (bitlen : Option Nat) (r : Option Nat)      -- `k(M,bitlen,r)`
+  | sha3call (M : List Nat)                                          -- `SHA3.__call__(M)` = `Keccak.__call__(self,M+b'\x02',8|M|+2)`
+deriving Repr, Inhabited
+
+/-- one operation: the object afterwards and what it returns -/
+def seqStep (o : Duplex) : SeqStep → Duplex × Except Err (List Nat)
+  | .duplex m bl ol => duplexObj o m bl ol
+  | .call M bl r => (o, (callR o.cfg M bl r).2)
+  | .sha3call M => (o, call o.cfg (M ++ [0x02]) (some (8 * M.length + 2)))
+
+/-- the object after a history -/
+def seqObj (o : Duplex) (steps : List SeqStep) : Duplex := steps.foldl (fun o st => (seqStep o st).1) o
+
+/-- the results of a history, one per operation -/
+def seqRun (o : Duplex) : List SeqStep → List (Except Err (List Nat))
+  | [] => []
+  | st :: rest => (seqStep o st).2 :: seqRun (seqStep o st).1 rest
+
 end Model.Keccak
